@@ -15,7 +15,8 @@ BUDGET = {"quick": 12000, "thorough": 600000}
 FLOORS = {"quick": {"op:norm": 500, "op:sum_idx": 500, "op:dot_axis": 500, "op:bilinear": 300, "order:1": 300,
                     "kept_singleton_mode": 100, "zero": 100, "operator": 500}}
 ASSUMPTIONS = ["dot conjugates its second argument and bilinear_form its first (the implemented, anchored convention)",
-               "sum/dot axes are non-negative, sorted and in range (other values belong to C18)"]
+               "sum/dot axes are sorted and in range (other values belong to C18); in-range negative axes (torch style) have a "
+               "dense counterpart, so they are generated with an accept-or-correct oracle: InvalidArguments/ShapeMismatch, or the right value"]
 
 SZ = (1, 2, 3, 4, 5)
 
@@ -39,12 +40,21 @@ def strategy_case(draw):
         form = draw(st.sampled_from(["list", "int"])) if len(idx) == 1 else "list"
         case["index"] = idx
         case["form"] = form
+        # torch-style negative axes have a dense counterpart: the library may reject them (InvalidArguments) or must be right
+        if draw(st.integers(0, 7)) == 0:
+            case["negative"] = [draw(st.booleans()) for _ in idx]
+            if not any(case["negative"]):
+                case["negative"][-1] = True
     elif op == "dot":
         case["y"] = draw(gen.tt_spec(N=x["N"], dt=x["dt"], mode=x["mode"]))
     elif op == "dot_axis":
         ax = sorted(draw(st.lists(st.integers(0, d - 1), min_size=1, max_size=d, unique=True)))
         case["axis"] = ax
         case["y"] = draw(gen.tt_spec(N=[x["N"][i] for i in ax], dt=x["dt"], mode=x["mode"]))
+        if draw(st.integers(0, 7)) == 0:
+            case["negative"] = [draw(st.booleans()) for _ in ax]
+            if not any(case["negative"]):
+                case["negative"][-1] = True
     elif op == "bilinear":
         M = draw(gen.modes(d, d, SZ, maxnumel=1500))
         case["A"] = draw(gen.tt_spec(N=x["N"], M=M, dt=x["dt"], mode=x["mode"], rmax=3))
@@ -149,7 +159,19 @@ def execute(case):
     if op == "sum_idx":
         idx = case["index"]
         arg = idx[0] if case["form"] == "int" else list(idx)
-        got = lib(lambda: x.sum(arg))
+        if case.get("negative"):
+            ck.label("negative_axis")
+            neg = [i - d if f else i for i, f in zip(idx, case["negative"])]
+            arg = neg[0] if case["form"] == "int" else neg
+            try:
+                got = lib(lambda: x.sum(arg))
+            except core.LibraryException as e:
+                if isinstance(e.orig, T.errors.InvalidArguments):
+                    ck.label("negative_axis_rejected")
+                    return ck.verdict()
+                raise
+        else:
+            got = lib(lambda: x.sum(arg))
         dims = list(idx) + ([i + d for i in idx] if ttm else [])
         ref = xd.sum(dim=dims)
         ref_abs = xa.sum(dim=dims)
@@ -175,7 +197,18 @@ def execute(case):
         ax = case["axis"]
         yc = core.make_cores(case["y"])
         y = T.TT(core.clone_cores(yc))
-        got = lib(lambda: T.dot(x, y, list(ax)))
+        if case.get("negative"):
+            ck.label("negative_axis")
+            neg = [i - d if f else i for i, f in zip(ax, case["negative"])]
+            try:
+                got = lib(lambda: T.dot(x, y, neg))
+            except core.LibraryException as e:
+                if isinstance(e.orig, (T.errors.InvalidArguments, T.errors.ShapeMismatch)):
+                    ck.label("negative_axis_rejected")
+                    return ck.verdict()
+                raise
+        else:
+            got = lib(lambda: T.dot(x, y, list(ax)))
         yd, ya = dense(yc), dense_abs(yc)
         kept = [i for i in range(d) if i not in ax]
         # contract x's modes `ax` with y's modes 0..len(ax)-1
